@@ -1514,6 +1514,9 @@ Hendaccess(int32 access_id)
     /* if special elt, call special function */
     if (access_rec->special) {
         ret_value = (*access_rec->special_func->endaccess)(access_rec);
+        /* the special routine releases the access record, also when it fails:
+           releasing it again below would put it on the free list twice */
+        access_rec = NULL;
         goto done;
     } /* end if */
 
